@@ -336,8 +336,9 @@ type c7obj struct {
 func (c *c7obj) GoodC7Step(d int) int {
 	c.mu.Lock()
 	if c.n >= c.max {
+		cur := c.n
 		c.mu.Unlock()
-		return c.n
+		return cur
 	}
 	c.n += d
 	v := c.n
@@ -387,4 +388,18 @@ func (r *c6reg) BadC6Keyed() {
 		r.counts[ssrc]++
 		r.mu.Unlock()
 	}
+}
+
+// lock wrappers: the whole body is one mutex operation
+
+func (c *c7obj) lock()   { c.mu.Lock() }
+func (c *c7obj) unlock() { c.mu.Unlock() }
+
+// GoodC7Wrapped uses the wrappers; the pair is balanced and the guarded field is accessed under the lock.
+func (c *c7obj) GoodC7Wrapped(d int) int {
+	c.lock()
+	c.n += d
+	v := c.n
+	c.unlock()
+	return v
 }
